@@ -238,12 +238,200 @@ let print_outputs outs =
       Printf.printf "= LAUNCH %s %s inst=%s rv=%s nodes=%s %s alloc=%s\n" (sn l.l_w) (tid_s l.l_t) (sn l.l_inst) (sn l.l_rv) (join "+" (List.map sn l.l_nodes)) (if l.l_ok then "ok" else "err") (join "," alloc))
     launches
 
+(* ---------- parsing the IMPLEMENTATION's snapshot lines into model values ---------- *)
+let strip_prefix p s = if String.length s >= String.length p && String.sub s 0 (String.length p) = p then Some (String.sub s (String.length p) (String.length s - String.length p)) else None
+let drop1 s = String.sub s 1 (String.length s - 1)
+
+let parse_state toks =
+  (* toks: the ':'-separated fields after the task id; returns (state, rest) *)
+  match toks with
+  | s :: rest when s.[0] = 'W' -> (Waiting (n_of_int (ios (drop1 s))), rest)
+  | s :: rv :: rest when s.[0] = 'A' -> (Assigned (n_of_int (ios (drop1 s)), n_of_int (ios rv)), rest)
+  | s :: rv :: rest when s.[0] = 'R' -> (Running (n_of_int (ios (drop1 s)), n_of_int (ios rv)), rest)
+  | s :: rest when s.[0] = 'P' -> (Prefilled (n_of_int (ios (drop1 s))), rest)
+  | s :: rest when s.[0] = 'S' -> (Retracting (n_of_int (ios (drop1 s))), rest)
+  | s :: rest when s.[0] = 'M' -> (RunningMN (List.map (fun w -> n_of_int (ios w)) (String.split_on_char ',' (drop1 s))), rest)
+  | "F" :: rest -> (Finished, rest)
+  | _ -> failwith "state"
+
+let parse_core_line body model_core =
+  (* body: "flag=b tasks..." *)
+  match words body with
+  | flag :: tasks ->
+      let tasks = if tasks = [ "-" ] then [] else tasks in
+      let ts =
+        List.map
+          (fun tok ->
+            match String.split_on_char ':' tok with
+            | id :: rest -> (
+                let st, rest = parse_state rest in
+                match rest with
+                | [ rq; prio; inst; crash; d; c ] ->
+                    { t_id = parse_tid id; t_state = st; t_deps = parse_tids (drop1 d); t_consumers = parse_tids (drop1 c); t_rq = n_of_int (ios rq); t_prio = z_of_int (ios prio);
+                      t_inst = n_of_int (ios inst); t_crash = n_of_int (ios crash); t_climit = CUnl; t_tlim = false }
+                | _ -> failwith ("task " ^ tok))
+            | _ -> failwith "task")
+          tasks
+      in
+      { model_core with c_tasks = ts; c_flag = flag = "flag=1" }
+  | _ -> model_core
+
+let parse_res s = List.map (fun x -> n_of_int (ios x)) (String.split_on_char '+' s)
+let parse_blocked s = if s = "-" then [] else List.map (fun x -> match String.split_on_char '/' x with [ a; b ] -> (n_of_int (ios a), n_of_int (ios b)) | _ -> failwith "blk") (String.split_on_char '+' s)
+
+let parse_wrk_line body =
+  let toks = words body in
+  let toks = if toks = [ "-" ] then [] else toks in
+  List.map
+    (fun tok ->
+      match String.split_on_char ':' tok with
+      | [ id; "sn"; a; p; f; r; b; g; s ] ->
+          { w_id = n_of_int (ios id); w_assign = Sn (parse_tids (drop1 a), parse_tids (drop1 p), parse_res (drop1 f)); w_res = parse_res (drop1 r); w_blocked = parse_blocked (drop1 b);
+            w_group = n_of_int (ios (String.sub g 2 (String.length g - 2))); w_stopping = s = "s1" }
+      | [ id; "mn"; t; root; r; b; g; s ] ->
+          { w_id = n_of_int (ios id); w_assign = Mn (parse_tid t, root = "1"); w_res = parse_res (drop1 r); w_blocked = parse_blocked (drop1 b);
+            w_group = n_of_int (ios (String.sub g 2 (String.length g - 2))); w_stopping = s = "s1" }
+      | _ -> failwith ("wrk " ^ tok))
+    toks
+
+let parse_que_line body =
+  let toks = words body in
+  let toks = if toks = [ "-" ] then [] else toks in
+  List.map
+    (fun tok ->
+      match String.split_on_char ':' tok with
+      | [ _rq; ready; pf ] ->
+          let entry e = match String.split_on_char '=' e with [ p; ids ] -> (z_of_int (ios p), parse_tids ids) | _ -> failwith "qe" in
+          { q_ready = (if ready = "-" then [] else List.map (fun e -> let p, ids = entry e in { qe_prio = p; qe_more = true; qe_ids = ids }) (String.split_on_char '/' ready));
+            q_prefill = (if pf = "-" then None else Some (entry pf)) }
+      | _ -> failwith ("que " ^ tok))
+    toks
+
+let parse_red_line body =
+  let toks = words body in
+  let toks = if toks = [ "-" ] then [] else toks in
+  List.map
+    (fun tok ->
+      match String.split_on_char '>' tok with
+      | [ t; wv ] -> ( match String.split_on_char ':' wv with [ w; v ] -> (parse_tid t, (n_of_int (ios w), n_of_int (ios v))) | _ -> failwith "red")
+      | _ -> failwith "red")
+    toks
+
+let parse_hq_line body =
+  let toks = words body in
+  let toks = if toks = [ "-" ] then [] else toks in
+  List.map
+    (fun tok ->
+      match String.split_on_char ':' tok with
+      | [ j; op; cnt; comp; mf; tasks ] ->
+          let c = List.map (fun x -> n_of_int (ios x)) (String.split_on_char ',' cnt) in
+          let tasks =
+            if tasks = "-" then []
+            else
+              List.map
+                (fun t ->
+                  let l = String.length t in
+                  ( n_of_int (ios (String.sub t 0 (l - 1))),
+                    match t.[l - 1] with 'W' -> JW | 'R' -> JR | 'F' -> JF | 'X' -> JX | 'C' -> JC | _ -> JA ))
+                (String.split_on_char ',' tasks)
+          in
+          { j_id = n_of_int (ios j); j_open = op = "1"; j_tasks = tasks; j_nrun = List.nth c 0; j_nfin = List.nth c 1; j_nfail = List.nth c 2; j_ncanc = List.nth c 3; j_nabort = List.nth c 4;
+            j_completed = comp = "1"; j_maxfails = opt_n mf }
+      | _ -> failwith ("hq " ^ tok))
+    toks
+
+(* WK line: "<w> back=.. run=.. blk=.. fut=.. down=[..] up=[..]" -> (w, backlog ids, running, futures) *)
+let parse_wk_line body =
+  let toks = words body in
+  match toks with
+  | w :: _ ->
+      let back = kv toks "back" and run = kv toks "run" and fut = kv toks "fut" in
+      let backlog = if back = "-" then [] else List.concat_map (fun e -> match String.split_on_char ':' e with [ _; ids ] -> parse_tids ids | _ -> []) (String.split_on_char '/' back) in
+      let running = if run = "-" then [] else List.map (fun e -> match String.split_on_char ':' e with [ t; rv ] -> (parse_tid t, n_of_int (ios rv)) | _ -> failwith "run") (String.split_on_char ',' run) in
+      let futs = if fut = "-" then [] else List.map (fun e -> match String.split_on_char ':' e with [ t; st ] -> (parse_tid t, st) | _ -> failwith "fut") (String.split_on_char ',' fut) in
+      (n_of_int (ios w), backlog, running, futs)
+  | _ -> failwith "wk"
+
+let parse_event body =
+  let toks = words body in
+  match toks with
+  | [ "wconn"; w ] -> Some (EvWConn (n_of_int (ios w)))
+  | [ "wlost"; w; r ] -> Some (EvWLost (n_of_int (ios w), n_of_int (ios r)))
+  | [ "submit"; j; c; n ] -> Some (EvSubmit (n_of_int (ios j), c = "closed=1", n_of_int (ios (String.sub n 2 (String.length n - 2)))))
+  | [ "completed"; j ] -> Some (EvCompleted (n_of_int (ios j)))
+  | [ "open"; j ] -> Some (EvOpen (n_of_int (ios j)))
+  | [ "close"; j ] -> Some (EvClose (n_of_int (ios j)))
+  | [ "jobcancel"; j ] -> Some (EvJobCancel (n_of_int (ios j)))
+  | "started" :: t :: _ ->
+      let ws = kv toks "w" in
+      Some (EvStarted (parse_tid t, n_of_int (ios (kv toks "inst")), (if ws = "-" then [] else List.map (fun w -> n_of_int (ios w)) (String.split_on_char '+' ws)), n_of_int (ios (kv toks "rv"))))
+  | [ "finished"; t ] -> Some (EvFinished (parse_tid t))
+  | [ "failed"; t; k ] -> Some (EvFailed (parse_tid t, match k with "timelimit" -> FTimeLimit | "neverrestart" -> FNeverRestart | "crashlimit" -> FCrashLimit | "launch" -> FLaunch | _ -> FTask))
+  | [ "canceled"; ts ] -> Some (EvCanceled (parse_tids ts))
+  | [ "aborted"; ts ] -> Some (EvAborted (parse_tids ts))
+  | _ -> None
+
 let process_trace header lines =
   print_endline header;
   let state = ref None in
   let dead = ref false in
   let nontrivial = ref false in
   let monitors = ref [] in
+  let add_mon m = if not (List.mem m !monitors) then monitors := m :: !monitors in
+  (* implementation-side view *)
+  let items = ref [] in
+  let item i = items := i :: !items in
+  let cur_op = ref None and cur_line = ref "" in
+  let icore = ref None and ihq = ref [] in
+  let iprocs = ref [] in
+  (* per worker: backlog / futures as of the previous step *)
+  let prev_wk : (int, tid list * (tid * string) list) Hashtbl.t = Hashtbl.create 8 in
+  let cur_wk : (int, tid list * (tid * string) list) Hashtbl.t = Hashtbl.create 8 in
+  let job_known : (int, int list) Hashtbl.t = Hashtbl.create 8 in
+  let limits = ref [] in
+  let dead_tasks = ref [] in
+  let f12 = ref false in
+  let stepno = ref 0 in
+  let tainted = ref [] in
+  let cur_resp = ref "" in
+  let check_state () =
+    match (!state, !icore) with
+    | Some ms, Some c ->
+        let isys = { s_core = c; s_hq = { h_jobs = !ihq; h_counter = N0 }; s_procs = !iprocs } in
+        (* C05 accounting, per worker; finding F23: a prefilled task started by the worker itself can
+           overbook the worker (the server assigned the freed resources concurrently) and the
+           saturating counter then drifts *)
+        let bad = List.map int_of_n (accounting_bad_workers c) in
+        (match !cur_op with
+        | Some (OpDUp w) when List.mem (int_of_n w) bad && (try ignore (Str.search_forward (Str.regexp_string "runp:") !cur_resp 0); true with Not_found -> false) ->
+            if not (List.mem (int_of_n w) !tainted) then tainted := int_of_n w :: !tainted
+        | Some (OpLost (w, _, _, _, _)) -> tainted := List.filter (fun x -> x <> int_of_n w) !tainted
+        | _ -> ());
+        List.iter
+          (fun w ->
+            if List.mem w !tainted then add_mon "M C05 KNOWN F23-prefill-start-race-overbooks a prefilled task started by the worker overbooked it; the saturating free-resource counter drifts"
+            else add_mon (Printf.sprintf "M C05 FAIL core-invariant-accounting worker=%d step=%d" w !stepno))
+          bad;
+        let which = int_of_n (core_ok_which c) in
+        if which <> 0 then begin
+          let names = [| ""; "worker-sets"; "task-place"; "queues-live"; "accounting"; "multinode"; "deps" |] in
+          let props = match which with 4 | 5 -> [ "C05" ] | 2 | 3 -> [ "C02"; "C08" ] | 6 -> [ "C03" ] | _ -> [ "C02"; "C05" ] in
+          List.iter (fun p -> add_mon (Printf.sprintf "M %s FAIL core-invariant-%s step=%d" p names.(which) !stepno)) props
+        end;
+        if not (hq_ok isys) then add_mon (Printf.sprintf "M C13 FAIL job-counters step=%d" !stepno);
+        if not (hq_core_bijection_ok isys) then add_mon (Printf.sprintf "M C02 FAIL hq-core-bijection step=%d" !stepno);
+        if not (single_execution_ok isys) then add_mon (Printf.sprintf "M C06 FAIL two-executions step=%d" !stepno);
+        ignore ms
+    | _ -> ()
+  in
+  let finish_step () =
+    (match !icore with Some _ -> check_state () | None -> ());
+    Hashtbl.reset prev_wk;
+    Hashtbl.iter (fun k v -> Hashtbl.replace prev_wk k v) cur_wk;
+    Hashtbl.reset cur_wk;
+    icore := None;
+    iprocs := []
+  in
   List.iter
     (fun line ->
       if String.length line > 2 then
@@ -253,31 +441,130 @@ let process_trace header lines =
             match words body with
             | [ "sched"; r; m ] -> state := Some (init_sys (n_of_int (ios r)) (n_of_int (ios m)))
             | _ -> ())
-        | 'O' when not !dead -> (
-            print_endline line;
-            match !state with
-            | None -> ()
-            | Some s -> (
-                let o = parse_op body in
-                (match o with OpLost _ | OpCancel _ | OpEnd (_, _, (EndFail | EndFollowStop)) | OpFailNext _ | OpTimer -> nontrivial := true | _ -> ());
-                match step s o with
-                | Ok (s', outs) ->
-                    state := Some s';
-                    print_outputs outs;
-                    print_snapshot s'
-                | Disabled ->
-                    print_endline "= MODEL-DISABLED";
-                    dead := true
-                | Panic site ->
-                    Printf.printf "= PANIC site=%s\n" (sn site);
-                    dead := true))
-        | '=' ->
-            if String.length body >= 5 && String.sub body 0 5 = "PANIC" then
-              monitors := ("M C09 FAIL panic " ^ String.concat "_" (words (String.sub body 5 (min 60 (String.length body - 5))))) :: !monitors
+        | 'O' ->
+            finish_step ();
+            incr stepno;
+            let o = try Some (parse_op body) with _ -> None in
+            cur_op := o;
+            cur_line := body;
+            cur_resp := "";
+            (match o with
+            | Some (OpLost (w, reason, _, _, _)) -> item (ILost (w, int_of_n reason = 1 || int_of_n reason = 2))
+            | Some (OpEnd (w, t, how)) ->
+                let stop = try List.assoc t (snd (Hashtbl.find prev_wk (int_of_n w))) with Not_found -> "?" in
+                if how = EndOk || (how = EndFollowStop && stop = "-") then item (IEndOk (w, t))
+            | _ -> ());
+            if not !dead then begin
+              print_endline line;
+              match (!state, o) with
+              | Some s, Some o -> (
+                  (match o with OpLost _ | OpCancel _ | OpEnd (_, _, (EndFail | EndFollowStop)) | OpFailNext _ | OpTimer -> nontrivial := true | _ -> ());
+                  match step s o with
+                  | Ok (s', outs) ->
+                      state := Some s';
+                      print_outputs outs;
+                      print_snapshot s'
+                  | Disabled ->
+                      print_endline "= MODEL-DISABLED";
+                      dead := true
+                  | Panic site ->
+                      Printf.printf "= PANIC site=%s\n" (sn site);
+                      dead := true)
+              | _ -> ()
+            end
+        | '=' -> (
+            try
+              match words body with
+              | "PANIC" :: rest -> add_mon ("M C09 FAIL panic " ^ String.concat "_" (List.filteri (fun i _ -> i < 6) rest))
+              | "EV" :: _ -> (
+                  match parse_event (String.sub body 3 (String.length body - 3)) with
+                  | Some e ->
+                      item (IEv e);
+                      (match e with
+                      | EvFailed (t, _) -> dead_tasks := t :: !dead_tasks
+                      | EvCanceled ts | EvAborted ts -> dead_tasks := ts @ !dead_tasks
+                      | _ -> ())
+                  | None -> ())
+              | "LAUNCH" :: w :: t :: rest ->
+                  let nodes = kv rest "nodes" in
+                  item
+                    (ILaunch
+                       { l_w = n_of_int (ios w); l_t = parse_tid t; l_inst = n_of_int (ios (kv rest "inst")); l_rv = n_of_int (ios (kv rest "rv"));
+                         l_nodes = (if nodes = "-" then [] else List.map (fun x -> n_of_int (ios x)) (String.split_on_char '+' nodes)); l_ok = List.mem "ok" rest; l_alloc = [] })
+              | [ "RESP"; "cancel"; r ] -> (
+                  match (!cur_op, String.split_on_char ':' r) with
+                  | Some (OpCancel j), [ "ok"; ids; _ ] -> item (ICancelResp (j, List.map n_of_int (parse_ints '+' ids)))
+                  | _ -> ())
+              | "RESP" :: "submit" :: "ok" :: j :: _ :: ids :: _ -> (
+                  let j = ios j in
+                  let all_ids = parse_ints ',' (String.sub ids 4 (String.length ids - 4)) in
+                  let known = try Hashtbl.find job_known j with Not_found -> [] in
+                  let fresh = List.filter (fun i -> not (List.mem i known)) all_ids in
+                  Hashtbl.replace job_known j all_ids;
+                  match !cur_op with
+                  | Some (OpSubmitG (_, _, ts, _)) ->
+                      let tasks = List.map (fun g -> let ((((id, _), _), _), deps) = g in (id, deps)) ts in
+                      List.iter (fun (_, deps) -> if List.exists (fun d -> List.mem (n_of_int j, d) !dead_tasks) deps then f12 := true) tasks;
+                      item (ISubmitted (n_of_int j, tasks))
+                  | _ -> item (ISubmitted (n_of_int j, List.map (fun i -> (n_of_int i, [])) fresh)))
+              | "UP" :: _ -> cur_resp := body
+              | "DOWN" :: w :: "compute" :: ts :: _ ->
+                  item (IDownCompute (n_of_int (ios w), List.map (fun e -> parse_tid (List.hd (String.split_on_char ':' e))) (String.split_on_char ',' ts)))
+              | "DOWN" :: w :: "cancel" :: ts :: _ -> item (IDownCancel (n_of_int (ios w), parse_tids ts))
+              | "DOWN" :: w :: "retract" :: ts :: _ ->
+                  let ids = parse_tids ts in
+                  let backlog = try fst (Hashtbl.find prev_wk (ios w)) with Not_found -> [] in
+                  item (IRetractAck (n_of_int (ios w), List.filter (fun t -> List.mem t backlog) ids))
+              | "CORE" :: _ -> (
+                  match !state with Some ms -> icore := Some (parse_core_line (String.sub body 5 (String.length body - 5)) ms.s_core) | None -> ())
+              | "WRK" :: _ -> ( match !icore with Some c -> icore := Some { c with c_workers = parse_wrk_line (String.sub body 4 (String.length body - 4)) } | None -> ())
+              | "QUE" :: _ -> ( match !icore with Some c -> icore := Some { c with c_queues = parse_que_line (String.sub body 4 (String.length body - 4)) } | None -> ())
+              | "RED" :: _ -> ( match !icore with Some c -> icore := Some { c with c_redirects = parse_red_line (String.sub body 4 (String.length body - 4)) } | None -> ())
+              | "HQ" :: _ ->
+                  ihq := parse_hq_line (String.sub body 3 (String.length body - 3));
+                  List.iter (fun j -> match j.j_maxfails with Some m -> if not (List.mem_assoc j.j_id !limits) then limits := (j.j_id, m) :: !limits | None -> ()) !ihq
+              | "WK" :: _ ->
+                  let w, backlog, running, futs = parse_wk_line (String.sub body 3 (String.length body - 3)) in
+                  Hashtbl.replace cur_wk (int_of_n w) (backlog, futs);
+                  iprocs :=
+                    { p_id = w; p_backlog = []; p_running = running; p_alloc = []; p_blocked = []; p_total = []; p_free = []; p_futures = []; p_timers = []; p_failnext = []; p_rqs = []; p_down = []; p_up = [] }
+                    :: !iprocs
+              | _ -> ()
+            with Failure m -> add_mon ("M C09 FAIL driver-parse-error " ^ m))
         | _ -> ())
     lines;
+  finish_step ();
+  (* trace predicates on the implementation's history *)
+  let tr = List.rev !items in
+  if not (terminal_once [] tr) then add_mon "M C01 FAIL terminal-outcome-not-unique";
+  if not (finish_after_start [] [] tr) then add_mon "M C01 FAIL finish-without-current-start-or-successful-run";
+  if not (deps_respected [] [] [] tr) then begin
+    (* finding F12: dependencies on tasks that were already failed / cancelled at submit time are dropped *)
+    let dead_at = ref [] in
+    let tr' =
+      List.map
+        (function
+          | IEv (EvFailed (t, _)) as i -> dead_at := t :: !dead_at; i
+          | IEv (EvCanceled ts) as i -> dead_at := ts @ !dead_at; i
+          | IEv (EvAborted ts) as i -> dead_at := ts @ !dead_at; i
+          | ISubmitted (j, tasks) -> ISubmitted (j, List.map (fun (id, deps) -> (id, List.filter (fun d -> not (List.mem (j, d) !dead_at)) deps)) tasks)
+          | i -> i)
+        tr
+    in
+    if deps_respected [] [] [] tr' then add_mon "M C03 KNOWN F12-dependency-on-dead-task a task submitted with a dependency on an already failed/cancelled task was started"
+    else add_mon "M C03 FAIL dependency-order-violated"
+  end;
+  if not (instances_increase [] tr) then add_mon "M C06 FAIL instance-id-not-increasing";
+  if not (no_start_after_giveup [] tr) then begin
+    add_mon "M C06 FAIL start-after-retract-ack-or-cancel";
+    add_mon "M C08 FAIL start-after-retract-ack-or-cancel"
+  end;
+  if not (cancel_final [] tr) then add_mon "M C08 FAIL report-after-cancel";
+  if not (completed_once [] tr) then add_mon "M C13 FAIL job-completed-twice";
+  if not (abort_justified [] !limits [] [] tr) then add_mon "M C14 FAIL abort-without-cause";
   List.iter print_endline (List.rev !monitors);
   if !nontrivial then print_endline "T nontrivial";
+  if !f12 then print_endline "T dep-on-dead";
   print_endline "END"
 
 let () =
